@@ -698,3 +698,8 @@ Definition decode_chunks (d : db) (p : dec_params) (header : bytes) (chunks : li
       st <- chunk_list_loop d p dstate0 chunks ;;
       finish p st
   end.
+
+(* plain functions for the OCaml driver: record labels of different models collide after extraction *)
+Definition mk_inst (r p : N) (c n : bytes) (ps : list (bytes * value)) : inst := mkInst r p c n ps.
+Definition inst_fields (i : inst) : N * N * bytes * bytes * list (bytes * value) :=
+  (i_ref i, i_parent i, i_class i, i_name i, i_props i).
